@@ -10,6 +10,8 @@ PROP = "C10"
 
 
 def model(macro, feature, unimock, mock_api, mockall, export, target):
+    if target == "cfn":
+        target = "fn"   # a fn with a concrete dependency: same rules (its leaf trait is expanded once more, in trait mode)
     unimock_on = unimock if unimock is not None else feature
     emit_unimock = unimock_on and (target == "trait" or mock_api)
     emit_mockall = mockall is True
@@ -22,7 +24,7 @@ def lattice():
     pts = []
     for macro, feature, unimock, mock_api, mockall, target in itertools.product(
             ["entrait", "entrait_export"], [False, True], [None, True, False], [False, True], [None, True, False],
-            ["fn", "mod", "trait"]):
+            ["fn", "mod", "trait", "cfn"]):
         for export in ([None, True, False] if target != "trait" else [None]):
             pts.append(dict(macro=macro, feature=feature, unimock=unimock, mock_api=mock_api, mockall=mockall,
                             export=export, target=target))
@@ -54,6 +56,10 @@ def make_case(cid, p, rng, e2e):
         attr = "#[::entrait::%s(%s)] /*@inv*/" % (p["macro"], ", ".join(["pub Tr"] + opts))
         item = "fn f<D>(deps: &D, a: i32) -> i32 { a }"
         scope = "self"
+    elif t == "cfn":
+        attr = "pub struct Cfg;\n#[::entrait::%s(%s)] /*@inv*/" % (p["macro"], ", ".join(["pub Tr"] + opts))
+        item = "fn f(deps: &Cfg, a: i32) -> i32 { a }"
+        scope = "self"
     else:
         attr = "#[::entrait::%s(%s)] /*@inv*/" % (p["macro"], ", ".join(["pub Tr"] + opts))
         item = "pub mod m { pub fn f<D>(deps: &D, a: i32) -> i32 { a } }"
@@ -81,6 +87,10 @@ def observed_attrs(rec):
         items = tok.split_items(out[len(inp):])
     else:
         items = tok.split_items(out)
+    return attrs_of_trait(items)
+
+
+def attrs_of_trait(items):
     res = set()
     found = False
     for it in items:
@@ -114,7 +124,7 @@ def observed_attrs(rec):
 def run(tier, seed):
     rep = core.Report(PROP, tier, seed)
     rep.rule = ("the full lattice {entrait, entrait_export} x {feature off,on} x unimock{absent,true,false} x mock_api{absent,present} "
-                "x mockall{absent,true,false} x export{absent,true,false; fn/mod} x {fn, mod, trait} is enumerated; every point is decided "
+                "x mockall{absent,true,false} x export{absent,true,false; fn/mod} x {fn, fn with concrete deps, mod, trait} is enumerated; every point is decided "
                 "on the recorded trait attributes, and end-to-end in a non-test and a test build through probes "
                 "(Unimock: Trait? does MockTr exist?) wherever the point can compile (feature off + unimock emission cannot: "
                 "::entrait::__unimock does not exist). non-trivial = some mock option or the feature is on")
@@ -167,14 +177,33 @@ def run(tier, seed):
                 recs = [r for r in recs if r["status"] == "end" and r["line"] == c.marks["inv"]]
                 if not recs:
                     raise core.Inconclusive("no record for %s (%s)" % (c.id, tag))
-                obs = observed_attrs(recs[0])
-                if obs is None:
-                    raise core.Inconclusive("trait not found in output of %s" % c.id)
-                checked_r += 1
-                if obs != exp:
-                    rep.violation(c.id, "attrs:%s" % ",".join(sorted("%s/%s" % (k, "gated" if g else "plain") for k, g in obs)) ,
-                                  "point %s (options %s): mock attributes on the trait are %s, model says %s" % (
-                                      p, c.meta["opts"], sorted(obs), sorted(exp)))
+                bad = False
+                # (a concrete-deps fn has two records: its own expansion and the nested trait-mode expansion of the leaf trait)
+                for r in (recs if p["target"] == "cfn" else recs[:1]):
+                    obs = observed_attrs(r)
+                    if obs is None:
+                        raise core.Inconclusive("trait not found in output of %s" % c.id)
+                    checked_r += 1
+                    want_here = exp
+                    if p["target"] == "cfn" and tok.item_kind(r["input"])["kind"] == "trait":
+                        # the nested trait-mode expansion of the leaf trait (rustc has already resolved cfg_attr): adds nothing
+                        want_here = attrs_of_trait(tok.split_items(r["input"]))
+                        if obs != want_here:
+                            rep.violation(c.id, "nested-adds-attrs:%s" % ",".join(sorted("%s/%s" % (k, "gated" if g else "plain") for k, g in obs)),
+                                          "point %s (options %s): the nested expansion of the leaf trait changed the mock attributes from %s to %s" % (
+                                              p, c.meta["opts"], sorted(want_here or []), sorted(obs)))
+                            bad = True
+                            break
+                        continue
+                    if obs != exp:
+                        rep.violation(c.id, "attrs:%s" % ",".join(sorted("%s/%s" % (k, "gated" if g else "plain") for k, g in obs)) ,
+                                      "point %s (options %s): mock attributes on the trait are %s, model says %s" % (
+                                          p, c.meta["opts"], sorted(obs), sorted(exp)))
+                        bad = True
+                        break
+                if p["target"] == "cfn" and len(recs) != 2:
+                    raise core.Inconclusive("expected two expansion records for the concrete-deps fn %s, saw %d" % (c.id, len(recs)))
+                if bad:
                     break
             # T: probes in both builds
             if c.meta["e2e"]:
